@@ -185,7 +185,7 @@ func runC09(c *Ctx) {
 	implicit := []string{"GetBook", "PatchBook", "Deep", "Typed", "Post", "Up", "Upload", "Down", "Chat", "Nope"}
 	_ = templates
 	_ = genPathFrom
-	fields := []string{"name", "i32", "u64", "flag", "kind", "data", "ts", "dur", "fm", "wstr", "w64", "nested.n", "nested.s", "nested.child.s", "ri", "rs", "m", "m.k", "rn", "rn.s", "oa", "ob", "file", "file.data", "nope", "", ".", "nested.", "otherName", "other_name"}
+	fields := []string{"m.key", "m.value", "nm.value", "nm.value.s", "nm.key.x", "m.value.x", "rn.s", "rn.child.s", "ri.x", "rs.0", "file.data", "file.content_type", "nested.tags.x", "name", "i32", "u64", "flag", "kind", "data", "ts", "dur", "fm", "wstr", "w64", "nested.n", "nested.s", "nested.child.s", "ri", "rs", "m", "m.k", "rn", "rn.s", "oa", "ob", "file", "file.data", "nope", "", ".", "nested.", "otherName", "other_name"}
 	values := []string{"1", "-1", "x", "", "true", "null", "1.5", "ALPHA", "99", "2001-02-03T04:05:06Z", "1s", "a,b", "%zz", "%", "QQ==", "!!", "{}", "[1]", "\"q", strings.Repeat("9", 40), "é", "1e400", "-0"}
 	genQuery := func() string {
 		if rnd.Intn(2) == 0 {
